@@ -47,10 +47,20 @@ class GuardedFault(Exception):
         object.__setattr__(self, name, value)
 
 
+class PrivateTypeError(TypeError):
+    """A TypeError raised INSIDE a data callable / async callable / iterator step.  Only injected at call-like
+    events: a TypeError out of __len__ / __iter__ / item access is a documented fallback signal, one raised by the
+    body of a callable is the data's exception like any other."""
+
+
+CALL_ONLY = (PrivateTypeError,)
+CALL_KINDS = ("call", "acall", "gcall", "agen", "anext", "next", "gcoro", "gen")
+
+
 # exceptions a data object may raise; none of them is a documented lookup signal
 # (AttributeError / LookupError / TypeError become undefined in some contexts, StopIteration from a callable too)
 FAULT_CLASSES = (PrivateFault, PrivateAbort, PrivateValueError, PrivateRuntimeError, PrivateOSError, PrivateArithmeticError,
-                 GuardedFault)
+                 GuardedFault, PrivateTypeError)
 
 
 class Events:
@@ -67,6 +77,8 @@ class Events:
     def ev(self, kind: str) -> None:
         self.n += 1
         if self.n == self.fault_at and self.exc is not None:
+            if isinstance(self.exc, CALL_ONLY) and kind not in CALL_KINDS:
+                return  # this fault class is only meaningful inside a call
             self.fired = True
             self.fired_kind = kind
             raise self.exc
